@@ -199,13 +199,13 @@ def run(chk):
         pts = rng.sample(inner, min(len(inner), rng.randint(1, 3)))
         which = ("max", "min", "both")[wi % 3]
         corner_min, corner_max = rng.choice([0.0, 4000.0]), rng.choice([20000.0, 30000.0])
-        f = {"model": rng.choice(["continental plate", "oceanic plate", "mantle layer"]), "name": "a", "coordinates": poly}
+        f = {"model": ["continental plate", "oceanic plate", "mantle layer"][(wi // 3) % 3], "name": "a", "coordinates": poly}
         node_min = {q: corner_min for q in pts}
         node_max = {q: corner_max for q in pts}
         if which in ("max", "both"):
             ent = [[corner_max]]
             for q in pts:
-                node_max[q] = float(rng.choice([12000.0, 26000.0, 41000.0]))
+                node_max[q] = float(rng.choice([12000.0, 26000.0, 41000.0])) if q != pts[0] else 12000.0
                 ent.append([node_max[q], [list(q)]])
             f["max depth"] = ent
         else:
